@@ -28,7 +28,7 @@ class Universe(object):
         from pgpy.constants import PubKeyAlgorithm, KeyFlags, HashAlgorithm, SymmetricKeyAlgorithm, CompressionAlgorithm, EllipticCurveOID
         self.pgpy = pgpy
         # K0's comment differs from the others' only by a space: an identifier is looked up as it is before any space-insensitive form
-        spec = [('K0', 'Alice', 'c 1', 'a@x.org', 1000), ('K1', 'Alice', 'c2', 'a@x.org', 2000),
+        spec = [('K0', 'Alice', 'c 1', 'a@x.org', 1000), ('K1', 'Alice', 'dead beef 01', 'a@x.org', 2000),       # a comment of hex digits in groups: looked up as it is, like any other text
                 ('K2', 'Bob', 'c1', 'b@x.org', 3000), ('K3', 'Alice', 'c1', 'c@x.org', 1000)]
         for j in range(extra):
             spec.append(('K%d' % (4 + j), ['Alice', 'Bob', 'Carol'][j % 3], ['c1', '', 'c3'][j % 3], ['a@x.org', 'd%d@x.org' % j][j % 2], 1000 * (j % 3) + 500))
@@ -103,7 +103,7 @@ class Universe(object):
                 v['aliases'].append('smsg:K1+K2')
         self.idents = sorted({a for v in self.comp.values() for a in v['aliases']})
         # absent identifiers (belong to no key of the universe)
-        self.idents += ['Nobody', 'zz@nowhere', 'DEADBEEFDEADBEEF']
+        self.idents += ['Nobody', 'zz@nowhere', 'DEADBEEFDEADBEEF', 'deadbeef01']
         self.by_fpr_half = {(v['fpr'], c.split('/')[0][-1] == 'p'): c for c, v in self.comp.items()}
 
     def _comp(self, cid, key, words):
